@@ -20,15 +20,46 @@ func (fr *Frame) chanSend(c *blockCtx, ch Term, cond string) {
 	g.setGhost(c.st, "$chsends", ch.S, ite(cond, "(+ "+cur.S+" 1)", cur.S))
 }
 
+// unblockTerms returns the channels named by the root contract's unblocks_on clause (nil if it has none).
+func (fr *Frame) unblockTerms(st *State) ([]string, bool) {
+	root := fr
+	for root.parent != nil {
+		root = root.parent
+	}
+	if root.contract == nil || len(root.contract.UnblocksOn) == 0 {
+		return nil, false
+	}
+	env := root.baseEnv(st)
+	var out []string
+	for _, e := range root.contract.UnblocksOn {
+		t, _ := env.tr(e)
+		out = append(out, t.S)
+	}
+	return out, true
+}
+
 func (fr *Frame) execSend(ins *ssa.Send, c *blockCtx) {
 	ch := fr.val(ins.Chan)
 	fr.safety("nilchan", c.reach, not(eq(ch.S, "Nil")), ins)
+	if _, ok := fr.unblockTerms(c.st); ok {
+		// a bare send can only be shown not to block through the capacity of a channel made in this function
+		g := fr.g
+		fr.callOrd["unblock"]++
+		goal := "(< " + g.getGhost(c.st, "$chlen", ch.S).S + " " + g.getGhost(c.st, "$chcap", ch.S).S + ")"
+		g.oblige("unblock", fr.oname("unblock", fmt.Sprintf("send@%d", fr.callOrd["unblock"])), c.reach, goal, "bare channel send", false)
+		cur := g.getGhost(c.st, "$chlen", ch.S)
+		g.setGhost(c.st, "$chlen", ch.S, "(+ "+cur.S+" 1)")
+	}
 	fr.chanSend(c, ch, "true")
 	fr.g.blockingOps = append(fr.g.blockingOps, fmt.Sprintf("%s: bare send on %s", funcKey(fr.fn), ins.Chan.Name()))
 }
 
 func (fr *Frame) execRecv(ins *ssa.UnOp, c *blockCtx) {
 	g := fr.g
+	if _, ok := fr.unblockTerms(c.st); ok {
+		fr.callOrd["unblock"]++
+		g.oblige("unblock", fr.oname("unblock", fmt.Sprintf("recv@%d", fr.callOrd["unblock"])), c.reach, "false", "bare channel receive", false)
+	}
 	et := ins.X.Type().Underlying().(*types.Chan).Elem()
 	v := g.sc.Fresh("recv", g.sortOf(et))
 	g.sc.Assume(g.typeInv(v.S, et))
@@ -49,6 +80,20 @@ func (fr *Frame) execSelect(ins *ssa.Select, c *blockCtx) {
 		lo = "(- 1)"
 	}
 	g.sc.Assume(fmt.Sprintf("(and (<= %s %s) (< %s %d))", lo, idx.S, idx.S, len(ins.States)))
+	if quits, ok := fr.unblockTerms(c.st); ok && ins.Blocking {
+		// a blocking select must offer a receive on one of the unblocking channels
+		var alts []string
+		for _, st := range ins.States {
+			if st.Dir == types.RecvOnly {
+				ch := fr.val(st.Chan)
+				for _, q := range quits {
+					alts = append(alts, eq(ch.S, q))
+				}
+			}
+		}
+		fr.callOrd["unblock"]++
+		g.oblige("unblock", fr.oname("unblock", fmt.Sprintf("select@%d", fr.callOrd["unblock"])), c.reach, or(alts...), "blocking select without an unblocking receive", false)
+	}
 	res := []Term{idx}
 	recvOk := g.sc.Fresh("selok", SBool)
 	res = append(res, recvOk)
